@@ -252,6 +252,179 @@ def oracle_other(path):
     return ncase, nev, viol, errs, kinds
 
 
+# ----------------------------------------------------------------------------- strm::fifo (all latency options incl. fall-through)
+def nextpow2(n):
+    d = 1
+    while d < n:
+        d <<= 1
+    return d
+
+
+def strm_expected_latency(p):
+    """strm::fifo(in, minDepth, lat): latency 0 (fall-through) builds an inner FifoLatency(1) FIFO;
+    otherwise the single-clock rules of FifoCapabilities::select."""
+    kind, val = p["lat"][0], int(p["lat"][1:])
+    if kind == "S":
+        return 1 if val == 0 else val
+    return {"D": 2, "L": max(val, 2), "M": min(val, 2)}[kind]
+
+
+def oracle_strm(p, lines):
+    """one strm::fifo trace against a plain queue at the stream interface (independent of the Coq model).
+    Returns (violation or None, stats)."""
+    cap = 1 << int(p["k"]); L = int(p["L"]); ft = p["ft"] == "1"
+    Q = collections.deque()     # (data, cycle of entry)
+    st = collections.Counter()
+    prev_stored_into_empty = False
+    for idx, line in enumerate(lines):
+        lhs, rhs = line.split("|")
+        _, v, data, r = lhs.split()
+        rdy, vo, do = rhs.split()
+        v = v == "1"; r = r == "1"
+        if "X" in (rdy, vo):
+            return dict(event=idx, what="undefined handshake signal", line=line), st
+        in_fire = v and rdy == "1"
+        if in_fire and len(Q) >= cap:
+            return dict(event=idx, what=f"beat accepted while {len(Q)} of {cap} are stored", line=line), st
+        qa = list(Q) + ([(int(data), idx)] if in_fire else [])
+        if vo == "1":
+            if not qa:
+                return dict(event=idx, what="valid output although nothing is stored or entering", line=line), st
+            if do != str(qa[0][0]):
+                return dict(event=idx, what=f"output shows {do} but the oldest undelivered beat is {qa[0][0]} (order violated / loss / duplication)", line=line), st
+        elif Q and idx - Q[0][1] >= L:
+            return dict(event=idx, what=f"oldest beat entered {idx - Q[0][1]} cycles ago and is still not offered (inner latency {L})", line=line), st
+        out_fire = vo == "1" and r
+        if in_fire:
+            st["beats_in"] += 1
+        if out_fire:
+            st["beats_out"] += 1
+            if in_fire and not Q:
+                st["bypassed_same_cycle"] += 1
+        # the aimed scenario: beat A stored into the empty FIFO (consumer stalled), next cycle beat B offered with ready consumer
+        if prev_stored_into_empty and v and r:
+            st["window_A_stalled_then_B_ready"] += 1
+        prev_stored_into_empty = in_fire and not Q and not out_fire
+        if in_fire and len(Q) == cap - 1 and not out_fire:
+            st["fills"] += 1
+        Q = collections.deque(qa[1:] if out_fire else qa)
+    st["nontrivial"] = 1 if st["beats_out"] > 0 else 0
+    return None, st
+
+
+def read_strm(path):
+    cur = None
+    with open(path) as f:
+        for line in f:
+            line = line.rstrip("\n")
+            if not line:
+                continue
+            if line[0] == "S":
+                if cur:
+                    yield cur
+                cur = (line, parse_kv(line.replace("|", " ").split()[2:]), [])
+            elif line[0] == "s" and cur:
+                cur[2].append(line)
+            elif line[0] == "X":
+                if cur:
+                    yield cur
+                    cur = None
+                yield (line, None, None)
+    if cur:
+        yield cur
+
+
+def strm_check(implp, modelp, acc):
+    """diff + oracle + premise + selected latency for every case of one strm trace file"""
+    mcases = read_strm(modelp) if modelp else None
+    for case in read_strm(implp):
+        mcase = next(mcases, None) if mcases else None
+        if case[1] is None:
+            acc["xlines"].append(case[0]); continue
+        cline, p, lines = case
+        acc["cases"] += 1; acc["events"] += len(lines)
+        acc["hash"].add(hashlib.sha1(("\n".join(lines)).encode()).hexdigest())
+        acc["grid"][f"lat={p['lat']} depth={p['depth']}"] += 1
+        acc["by_latency_option"]["fall-through(0)" if p["ft"] == "1" else p["lat"]] += 1
+        exp = strm_expected_latency(p)
+        if int(p["L"]) != exp or int(p["L2"]) != exp or int(p["depth"]) != nextpow2(int(p["minDepth"])) or p["single"] != "1":
+            acc["lat_viol"].append(dict(case=cline, what=f"strm::fifo built an inner FIFO with depth={p['depth']} L={p['L']}/{p['L2']}, expected depth={nextpow2(int(p['minDepth']))} L={exp}"))
+        if p["ft"] == "1" and int(p["L"]) != 1:
+            acc["premise"].append(dict(case=cline, what=f"fall-through strm::fifo on an inner FIFO of write-to-empty latency {p['L']}: the side condition c_lat = 1 of strm_fifo_refines_queue does not hold (strm_fallthrough_latency2_refuted shows it is necessary)"))
+        if mcase is not None and mcase[1] is not None:
+            ml = mcase[2]
+            if len(ml) != len(lines):
+                acc["mismatches"].append(dict(case=cline, event=min(len(ml), len(lines)), observed="<length>", expected="<length>"))
+            else:
+                for i, (a, b) in enumerate(zip(lines, ml)):
+                    if a != b:
+                        acc["mismatches"].append(dict(case=cline, event=i, observed=a, expected=b, context=lines[max(0, i - 6):i + 1])); break
+        v, st = oracle_strm(p, lines)
+        for kk, vv in st.items():
+            acc["classes"][kk] += vv
+        if p["ft"] == "1":
+            acc["classes"]["fallthrough_window_hits"] += st.get("window_A_stalled_then_B_ready", 0)
+            if int(p["depth"]) > 64:
+                acc["classes"]["fallthrough_window_hits_depth_gt_64"] += st.get("window_A_stalled_then_B_ready", 0)
+        if v:
+            v["case"] = cline
+            acc["viol"].append(v)
+        if len(acc["samples"]) < 2 and p["ft"] == "1" and int(p["depth"]) > 64:
+            acc["samples"].append(dict(case=cline, first_cycles=lines[:10]))
+
+
+def new_sacc():
+    return dict(cases=0, events=0, hash=set(), grid=collections.Counter(), by_latency_option=collections.Counter(), classes=collections.Counter(),
+                mismatches=[], viol=[], premise=[], lat_viol=[], xlines=[], samples=[], errors=[])
+
+
+def strm_run(exe, drv, harness_args, tag, acc):
+    impl = WORK / f"{tag}.txt"; model = WORK / f"{tag}_model.txt"
+    rc, out = run_harness(exe, harness_args(str(impl)))
+    if rc != 0:
+        acc["errors"].append(f"harness {tag} rc={rc}: {out[-500:]}"); return
+    if drv:
+        rc, out = V.run([drv, str(impl), str(model)], timeout=3000)
+        if rc != 0:
+            acc["errors"].append(f"model driver ({tag}) rc={rc}: {out[-500:]}"); return
+    strm_check(impl, model if drv else None, acc)
+
+
+# ----------------------------------------------------------------------------- table of selected latencies
+def lat_table(exe, tag="lat"):
+    """every (device, clocking, requested latency option, minDepth): what FifoCapabilities::select reports.
+    Returns (rows, explicit_violations, other_violations, errors)."""
+    path = WORK / f"{tag}.txt"
+    rc, out = run_harness(exe, ["lat", str(path)])
+    if rc != 0:
+        return 0, [], [], [f"harness lat rc={rc}: {out[-500:]}"], {}
+    rows = 0; explicit = []; other = []; errs = []; hist = collections.Counter()
+    for line in open(path):
+        line = line.strip()
+        if not line.startswith("Q"):
+            continue
+        rows += 1
+        p = parse_kv(line.replace("|", " ").split()[1:])
+        if "error" in p or "depth" not in p:
+            errs.append(line); continue
+        dual = p["dual"] == "1"; kind, val = p["lat"][0], int(p["lat"][1:])
+        got = [int(p[x]) for x in ("we", "rf", "wae", "raf")]
+        hist[f"{p['dev']}/{'dual' if dual else 'single'}/{kind}"] += 1
+        x7 = p["dev"] == "direct_xilinx7"
+        pref = 1 if x7 else 2      # resolveToPreferredMinimum(1) in Xilinx7SeriesFifoCapabilities, (2) in the default
+        if dual:
+            exp = {"S": val, "D": max(4, pref), "L": max(val, 4), "M": 4}[kind]
+        else:
+            exp = {"S": val, "D": pref, "L": max(val, pref), "M": min(val, pref)}[kind]
+        md = int(p["minDepth"])
+        expd = nextpow2(max(512, md)) if x7 else nextpow2(md)
+        if kind == "S" and any(g != val for g in got):
+            explicit.append(dict(case=line, what=f"latency {val} was requested explicitly, the implementation selected write-to-empty/read-to-full/almost = {got}"))
+        elif any(g != exp for g in got) or int(p["depth"]) != expd or (p["single"] == "1") == dual:
+            other.append(dict(case=line, what=f"selected latencies {got} depth {p['depth']} single={p['single']}, expected {exp} / {expd}"))
+    return rows, explicit, other, errs, dict(hist)
+
+
 # ----------------------------------------------------------------------------- running
 def run_harness(exe, args, timeout=3000):
     rc, out = V.run([exe] + args, timeout=timeout)
@@ -390,6 +563,14 @@ def main():
                 still.append(orr["error"])
             else:
                 still = [v for v in orr["viol"] + orr["mismatches"] if v["case"] == cline]
+        elif cline and cline.startswith("S"):
+            acc = new_sacc()
+            strm_run(exe, drv, lambda o: ["sreplay", o] + cline.replace("|", " ").split(), "replay_strm", acc)
+            still = acc["errors"] + acc["viol"] + acc["mismatches"] + acc["premise"] + acc["lat_viol"] + acc["xlines"]
+        elif cline and cline.startswith("Q"):
+            rows, explicit, otherv, lerrs, _ = lat_table(exe, tag="replay_lat")
+            key = cline.split("|")[0].strip()
+            still = [v for v in explicit + otherv if v["case"].split("|")[0].strip() == key] + lerrs
         else:
             still.append("replay names no concrete case (theorem / build level failure): run the check itself")
         print(json.dumps(dict(replay=cline, still_failing=bool(still), details=still[:2]), indent=1, default=str))
@@ -401,9 +582,14 @@ def main():
     # ---------------- corpus first
     corpus = sorted(glob.glob(str(V.VERIF / "corpus" / CID / "*.txt")))
     ncorpus = 0
+    sacc = new_sacc()
     for cf in corpus:
         for line in open(cf):
             line = line.strip()
+            if line.startswith("S "):
+                ncorpus += 1
+                strm_run(exe, drv, lambda o, line=line: ["sreplay", o] + line.split(), f"corpus_s{ncorpus}", sacc)
+                continue
             if not line.startswith("C "):
                 continue
             ncorpus += 1
@@ -459,10 +645,37 @@ def main():
         other = orr
     mismatches += tx_mismatches
 
+    # ---------------- strm::fifo: every latency option (0 = fall-through) x depth, tie + oracle + side condition
+    nsh = 1 if tiername == "quick" else 4
+    for i in range(nsh):
+        strm_run(exe, drv, lambda o, i=i: ["strm", str(seed * 10 + i if nsh > 1 else seed), tiername, o], f"strm_{tiername}{i}", sacc)
+    errors += sacc["errors"]
+    mismatches += sacc["mismatches"]
+    xlines += sacc["xlines"]
+    lat_viol += sacc["lat_viol"]
+    strm_viol = sacc["viol"]; premise_viol = sacc["premise"]
+
+    # ---------------- the latencies FifoCapabilities::select reports, as a table
+    lat_rows, lat_explicit, lat_other, lat_errs, lat_hist = lat_table(exe)
+    errors += lat_errs
+    lat_viol += lat_other
+
     # ---------------- verdict
-    tie_broken = bool(mismatches) or drv is None or not res["ok"] or bool(errors) or bool(xlines) or bool(lat_viol)
+    tie_broken = (bool(mismatches) or drv is None or not res["ok"] or bool(errors) or bool(xlines) or bool(lat_viol)
+                  or bool(premise_viol) or bool(lat_explicit))
     search_info = {}
-    if tie_broken and not oracle_viol and not other_viol:
+    strm_suspect = bool(premise_viol) or any(m["case"].startswith("S") for m in mismatches) or any(v["case"].startswith(("S", "Q")) for v in lat_viol + lat_explicit)
+    if tie_broken and strm_suspect and not strm_viol:
+        # search mode for the stream wrapper: more strm::fifo runs against the plain queue
+        budget = 60 if tiername == "quick" else 600
+        ts = time.time(); rounds = 0
+        while time.time() - ts < budget and not strm_viol and rounds < (3 if tiername == "quick" else 20):
+            a2 = new_sacc()
+            strm_run(exe, None, lambda o, rounds=rounds: ["strm", str(seed * 7 + 500 + rounds), "search", o], f"search_strm{rounds}", a2)
+            strm_viol = a2["viol"]; rounds += 1
+            search_info["extra_strm_cases"] = search_info.get("extra_strm_cases", 0) + a2["cases"]
+        search_info["strm_rounds"] = rounds
+    if tie_broken and not oracle_viol and not other_viol and not strm_viol:
         # search mode: more of the real implementation against the plain queue (the traces above were
         # already checked by the oracle); budget quick 60 s / thorough 10 min
         budget = 60 if tiername == "quick" else 600
@@ -517,6 +730,19 @@ def main():
             emit(dict(property=CID, kind="model", what="Extract_C15.v no longer compiles", log=V.last_model_log[-1500:], search=search_info), nofail=True, tag="model")
         else:
             emit(dict(property=CID, kind="harness", what="harness run failed", errors=errors[:3], search=search_info), nofail=True, tag="harness")
+    if strm_viol:
+        v = strm_viol[0]
+        emit(dict(property=CID, kind="strm-fifo-oracle", case=v["case"], event=v.get("event"), what=v["what"], observed=v.get("line"),
+                  expected="strm::fifo delivers the beats that entered, in order (bounded queue at the stream interface; fall-through may deliver in the entry cycle)",
+                  side_condition_broken=[x["what"] for x in premise_viol[:1]], latency_table=[x["what"] for x in lat_explicit[:1]],
+                  how_to_replay="checks/C15.py --replay <this file>"), tag="strm")
+    elif premise_viol:
+        emit(dict(property=CID, kind="theorem-premise", **premise_viol[0], search=search_info, how_to_replay="checks/C15.py --replay <this file>"), nofail=True, tag="premise")
+    if lat_explicit:
+        v = lat_explicit[0]
+        emit(dict(property=CID, kind="latency-table", case=v["case"], what=v["what"], n_rows_violating=len(lat_explicit),
+                  expected="an explicitly requested FifoLatency is the latency the implementation reports (FifoCapabilities::select)",
+                  how_to_replay="checks/C15.py --replay <this file>"), tag="lat")
     if other_viol:
         v = other_viol[0]
         emit(dict(property=CID, kind="other-fifo-oracle", case=v["case"], line_no=v["line_no"], observed=v["line"], what=v["what"],
@@ -525,14 +751,14 @@ def main():
 
     # ---------------- evidence
     cov = rep.cov
-    cov["evaluations"] = agg["cases"] + gray_n + other["cases"]
+    cov["evaluations"] = agg["cases"] + gray_n + other["cases"] + sacc["cases"] + lat_rows
     cov["distinct_nontrivial"] = min(len(agg["hash"]), agg["classes"].get("nontrivial", 0))
     cov["rule"] = ("a case = one FIFO configuration (depth, latency option, single/dual clock with frequency ratio and trigger edges, "
                    "postprocess on/off, almost-levels, payload width) simulated under one seeded 8-phase request schedule (fill/drain, both-always, "
                    "boundary hugging, random); non-trivial = the trace accepts and delivers items, reaches full=1 and afterwards drains to an empty queue; "
                    "distinct = distinct event traces (sha1). distinct_nontrivial = min(#distinct traces, #non-trivial cases).")
     cov["samples"] = samples
-    cov["traces_validated_against_impl"] = agg["cases"]
+    cov["traces_validated_against_impl"] = agg["cases"] + sacc["cases"]
     cov["events_compared"] = agg["events"]
     cov["tie_mismatching_cases"] = len(mismatches)
     cov["corpus_cases"] = ncorpus
@@ -547,10 +773,17 @@ def main():
                                  step_both_or_single=agg["classes"].get("ev_B", 0),
                                  latency1_write_first_cases=sum(v for kk, v in agg["cfg"].items() if " L=1 " in kk))
     cov["other_fifos"] = other
+    cov["strm_fifo"] = dict(cases=sacc["cases"], cycles_diffed_against_coq_machine=sacc["events"], distinct_traces=len(sacc["hash"]),
+                            by_latency_option=dict(sacc["by_latency_option"]), grid_latency_x_depth=dict(sorted(sacc["grid"].items())),
+                            classes=dict(sacc["classes"]), samples=sacc["samples"],
+                            fallthrough_side_condition_violations=len(premise_viol))
+    cov["latency_table"] = dict(rows=lat_rows, explicit_request_not_honoured=len(lat_explicit), other_deviations=len(lat_other), histogram=lat_hist)
     cov["search_mode"] = search_info
     cov["explanation"] = ("Theorems are universal (all depths 2^k, latencies, schedules, dual-clock interleavings incl. both metastable capture outcomes). "
                           "The sampled part is only the correspondence FifoDefs.v <-> scl::Fifo and FifoTxDefs.v <-> scl::TransactionalFifo (single clock). "
-                          "FifoArray, strm::fifo and the dual-clock TransactionalFifo have NO Coq machine: they are exercised against python queue oracles only "
+                          "strm::fifo incl. its fall-through mode: FifoStrmDefs.v, diffed cycle-accurately; its theorem needs inner latency 1 for fall-through, "
+                          "which is checked against the latency the implementation selects (FifoMeta) on every case and in the latency table. "
+                          "FifoArray and the dual-clock TransactionalFifo have NO Coq machine: they are exercised against python queue oracles only "
                           "(dual-clock TransactionalFifo not at all: its only test in the repository is commented out).")
     rep.assumptions += [
         "FifoDefs.v is a hand transcription of Fifo.h/cdc.cpp; its agreement with the code is established by the sampled cycle-accurate diff only",
